@@ -126,10 +126,8 @@ def _repr_line(v):
         return f"a repr s {_cps(v)} {flags}"
     if isinstance(v, bool):
         return f"a repr b {1 if v else 0}"
-    if isinstance(v, np.floating):
-        return f"a repr npf {_cps(repr(float(v)))}"
-    if isinstance(v, np.integer):
-        return f"a repr npi {int(v)}"
+    if isinstance(v, np.generic):
+        return None     # numpy scalars no longer reach the text writer (read_dataset_from_hdf5 converts them)
     if isinstance(v, int):
         return f"a repr i {v}"
     if isinstance(v, float):
@@ -168,8 +166,6 @@ def _section_attr(ctx: Ctx, res: Result, n_str: int, n_mal: int, use_model=True)
     for _ in range(n_str // 4):
         vals.append(_gen_int(rng))
         vals.append(_gen_float(rng))
-        vals.append(np.float64(_gen_float(rng)))
-        vals.append(np.int64(rng.randint(-2**62, 2**62)))
     vals += [True, False, "", "'", '"', "'\"", "\\", "\\'", "\U000e0001", "a\U0010ffff", "\ud800", "\x00"]
     for v in vals:
         ln = _repr_line(v)
@@ -427,6 +423,7 @@ def _value_cause(v):
 
 def _expected_rejection(ds, fmt: str):
     """input classes a writer is known to refuse loudly (not a silent loss)"""
+    import numpy as np
     strs = [ds.name] + list(ds.axis_label) + list(ds.axis_unit) + list(ds.column_label) + list(ds.column_unit) + \
         [v for v in ds.attrs.values() if isinstance(v, str)] + list(ds.attrs)
     if any(0xD800 <= ord(c) <= 0xDFFF for s in strs for c in s):
@@ -442,10 +439,16 @@ def _expected_rejection(ds, fmt: str):
             if isinstance(v, int) and not isinstance(v, bool) and not (-2**63 <= v < 2**64):
                 return "h5-int-range"
         else:
-            if k == "" or ":" in k:
+            if k == "" or ":" in k or "\n" in k or "\r" in k:
                 return "text-attr-name"
     if fmt == "hdf5" and any("\x00" in s for s in strs if s is not None):
         return "h5-nul-in-string"
+    if fmt == "text":
+        # integers that float64 cannot hold exactly are refused (the text format stores every number as float64)
+        for arr in [ds.data] + [x for x in ds.axis_scale if x is not None]:
+            a = np.asarray(arr)
+            if a.dtype.kind in "iu" and any(int(float(v)) != int(v) for v in a.reshape(-1).tolist()):
+                return "text-int-not-exact"
     return None
 
 
